@@ -80,7 +80,7 @@ pub fn worker_main() -> i32 {
 
 fn spawn(job: &Job) -> std::process::Child {
     let exe = std::env::current_exe().expect("current_exe");
-    let mut child = Command::new(exe).arg("sched-worker").stdin(Stdio::piped()).stdout(Stdio::piped()).stderr(Stdio::piped()).env("RUST_BACKTRACE", "0").env("VH_PANIC_LINES", "1").spawn().expect("spawn worker");
+    let mut child = Command::new(exe).arg("sched-worker").stdin(Stdio::piped()).stdout(Stdio::piped()).stderr(Stdio::piped()).env("RUST_BACKTRACE", "0").env("VH_PANIC_LINES", "1").env("VERIF_BUDGET_S", crate::par::remaining_budget_s().max(5).to_string()).spawn().expect("spawn worker");
     let mut stdin = child.stdin.take().unwrap();
     stdin.write_all(serde_json::to_string(job).unwrap().as_bytes()).unwrap();
     stdin.write_all(b"\n").unwrap();
